@@ -6,6 +6,13 @@
 // (independent of output/fastmsgpack), once by hand (token by token, so duplicated keys, trailing bytes and wrong
 // counts are visible) and once through fluentlib's reference EventEntry, and compared with a reference model of the
 // record's visible fields written from the documentation.
+//
+// Besides the big product of lengths x contents x roles the enumeration has one group per further dimension: every byte
+// value at every role position of a value (sweep), rewriter chains of up to three / four steps on any field (chains),
+// sequences of records through one serializer without any reset between them (history), things that happen between the
+// call and the reading of the stream - the record's buffer recycled, other serializers at work (alias), records at the
+// documented record limit (limit), schemas of 31..66 (..300) fields (wide) and rewritten lengths that reach 65535/65536
+// only as a sum (inline-sum).
 package main
 
 import (
@@ -15,6 +22,7 @@ import (
 	"runtime/debug"
 	"strings"
 	"time"
+	"unsafe"
 
 	"github.com/relex/fluentlib/protocol/forwardprotocol"
 	"github.com/relex/gotils/logger"
@@ -52,7 +60,8 @@ func repeatTo(pattern string, n int) string {
 
 func ascii(n int) string { return repeatTo(asciiAlphabet, n) }
 
-// escape second bytes: the five documented ones, the escape char itself, and characters that are NOT escapes
+// escape second bytes of the big product: the five documented ones, the escape char itself, and characters that are NOT
+// escapes (all 256 second bytes are enumerated by the sweep group)
 var quickEscapes = []byte{'b', 'f', 'n', 'r', 't', '\\', 'x'}
 var moreUnknownEscapes = []byte{'0', '"', 'u', '/', ' ', 0x00, 0xFF, 'N'}
 
@@ -114,24 +123,80 @@ func contentClasses(thorough bool) []contentClass {
 	return cs
 }
 
+// value is one field value with its reference unescaping
 type value struct {
-	li, ci int
+	name   string // "<length>:<content class>", used in case ids
 	s      string
 	un     string // reference unescaping of s
+	listed bool   // length x content class named in the plan (the quick product)
+	small  bool   // lengths {0,1,16,65536} x {ascii, mixed}
 }
 
-func buildValues(classes []contentClass) []value {
-	vs := make([]value, 0, len(lengthClasses)*len(classes))
-	for li, n := range lengthClasses {
-		for ci, c := range classes {
+func mkValue(name, s string) *value { return &value{name: name, s: s, un: refUnescape(s)} }
+
+func buildValues(classes []contentClass) []*value {
+	listedNames := map[string]bool{}
+	for _, c := range contentClasses(false) {
+		listedNames[c.name] = true
+	}
+	vs := make([]*value, 0, len(lengthClasses)*len(classes))
+	for _, n := range lengthClasses {
+		for _, c := range classes {
 			s := c.gen(n)
 			if len(s) != n {
 				panic(fmt.Sprintf("harness bug: content class %s produced %d bytes for length %d", c.name, len(s), n))
 			}
-			vs = append(vs, value{li, ci, s, refUnescape(s)})
+			v := mkValue(fmt.Sprintf("%d:%s", n, c.name), s)
+			v.listed = listedNames[c.name]
+			v.small = (n == 0 || n == 1 || n == 16 || n == 65536) && (c.name == "ascii" || c.name == "mixed")
+			vs = append(vs, v)
 		}
 	}
 	return vs
+}
+
+// ---- byte sweep: every byte value at every role position of the value grammar (ordinary content, second byte of an
+// escape sequence, second byte of the escape sequence that ends the value)
+
+type sweepPattern struct {
+	name     string
+	thorough bool
+	gen      func(b string, n int) string // b = the swept byte (or multi-byte character), n = length of the value
+}
+
+var sweepPatterns = []sweepPattern{
+	{"raw", false, func(b string, n int) string { return repeatTo(b+"z", n) }},
+	{"esc", false, func(b string, n int) string { return repeatTo(`\`+b+"z", n) }},
+	{"esc-end", false, func(b string, n int) string {
+		if n < 1+len(b) {
+			return repeatTo(`\`+b, n)
+		}
+		return ascii(n-1-len(b)) + `\` + b
+	}},
+	{"esc-start", true, func(b string, n int) string {
+		if n < 1+len(b) {
+			return repeatTo(`\`+b, n)
+		}
+		return `\` + b + ascii(n-1-len(b))
+	}},
+	{"esc-pair", true, func(b string, n int) string { return repeatTo(`\`+b+`\`+b, n) }}, // escapes back to back, no ordinary byte between
+}
+
+type sweepSubject struct {
+	name string
+	b    string
+}
+
+func sweepSubjects() []sweepSubject {
+	ss := make([]sweepSubject, 0, 262)
+	for b := 0; b < 256; b++ {
+		ss = append(ss, sweepSubject{fmt.Sprintf("%02x", b), string([]byte{byte(b)})})
+	}
+	// whole multi-byte characters behind a backslash (lead bytes 0xC3, 0xE2, 0xE6, 0xF0 followed by their continuation bytes)
+	for _, r := range []string{"é", "€", "…", "漢", "\U0001F600"} {
+		ss = append(ss, sweepSubject{fmt.Sprintf("u+%04x", []rune(r)[0]), r})
+	}
+	return ss
 }
 
 // ---------------------------------------------------------------------------------------------------------------
@@ -156,11 +221,14 @@ const (
 	rHiddenCopy
 	rHiddenUnescape
 	rHiddenInlineUnescape
+	// listed as environment field AND as hidden field: never at the top level; the documentation does not say which list
+	// wins inside the nested map, so the field may be nested (with its raw value) or absent
+	rEnvHidden
 	numAllRoles
 )
 
 var roleNames = []string{"plain", "env", "hidden", "rw-copy", "rw-unescape", "rw-inline-copy", "rw-inline-unescape", "",
-	"env+rw-copy", "env+rw-unescape", "env+rw-inline-copy", "hidden+rw-copy", "hidden+rw-unescape", "hidden+rw-inline-unescape"}
+	"env+rw-copy", "env+rw-unescape", "env+rw-inline-copy", "hidden+rw-copy", "hidden+rw-unescape", "hidden+rw-inline-unescape", "env+hidden"}
 
 // base is the role that decides where (and whether) the field is output
 func (r role) base() role {
@@ -169,6 +237,10 @@ func (r role) base() role {
 		return rEnv
 	case rHiddenCopy, rHiddenUnescape, rHiddenInlineUnescape:
 		return rHidden
+	case rEnvHidden:
+		return rEnvHidden
+	case rCopy, rUnescape, rInlineCopy, rInlineUnescape:
+		return rPlain
 	}
 	return r
 }
@@ -184,16 +256,52 @@ func (r role) chain() role {
 		return rInlineCopy
 	case rHiddenInlineUnescape:
 		return rInlineUnescape
+	case rEnvHidden:
+		return rPlain
 	}
 	return r
 }
 
 func (r role) overlapped() bool { return r > numRoles }
-func (r role) rewritten() bool  { return r >= rCopy && r < numRoles }
-func (r role) inlines() bool    { return r == rInlineCopy || r == rInlineUnescape }
-func (r role) unescapes() bool  { return r == rUnescape || r == rInlineUnescape }
 
-// filler describes one non-distinguished field of the 16-field layout (index >= 2)
+// chainSpec is a rewriter chain: any number of "inline" steps and the terminating "copy" or "unescape" (the only
+// shape Config.VerifyConfig accepts)
+type chainSpec struct {
+	inl  []int // schema indices of the inlined fields, in configuration order
+	term role  // rCopy or rUnescape
+}
+
+func chainOf(r role, other int) *chainSpec {
+	switch r {
+	case rCopy:
+		return &chainSpec{nil, rCopy}
+	case rUnescape:
+		return &chainSpec{nil, rUnescape}
+	case rInlineCopy:
+		return &chainSpec{[]int{other}, rCopy}
+	case rInlineUnescape:
+		return &chainSpec{[]int{other}, rUnescape}
+	}
+	return nil
+}
+
+func chainLabel(c *chainSpec) string {
+	if c.term == rCopy {
+		return "rw-" + strings.Repeat("inline-", len(c.inl)) + "copy"
+	}
+	return "rw-" + strings.Repeat("inline-", len(c.inl)) + "unescape"
+}
+
+// fieldSpec is one named field of a setup
+type fieldSpec struct {
+	name  string
+	base  role       // rPlain, rEnv, rHidden or rEnvHidden: where (and whether) the field is output
+	chain *chainSpec // nil: no rewriter chain configured
+	label string     // role label used in violation keys ("A:rw-copy", "filler:plain", ...)
+	value string     // value in every record unless the case overrides it (distinguished fields, "host" in histories)
+}
+
+// filler describes one non-distinguished field of the 16-field layout
 type filler struct {
 	name  string
 	role  role // plain, env or hidden only
@@ -227,84 +335,138 @@ type layout struct {
 	nfields  int  // named fields
 	reserved int  // extra unnamed slots at the end of LogRecord.Fields (schema maxFields - nfields), filled with junk
 	dense    bool // every filler is a non-empty plain field, except "host" (one environment field is mandatory): largest record map
+	tail     bool // the distinguished fields A, B are the LAST two fields; the fillers before them repeat the 14 fixed fillers cyclically
 }
 
 func (l layout) String() string {
-	if l.dense {
+	switch {
+	case l.dense:
 		return fmt.Sprintf("s%d+%ddense", l.nfields, l.reserved)
+	case l.tail:
+		return fmt.Sprintf("s%d+%dtail", l.nfields, l.reserved)
 	}
 	return fmt.Sprintf("s%d+%d", l.nfields, l.reserved)
 }
 
 type setup struct {
-	lay      layout
-	roleA    role
-	roleB    role
-	schema   base.LogSchema
-	names    []string
-	roles    []role
-	cfg      *fluentdforward.Config
-	envOrder []string
-	fill     []string           // values of all slots; [0], [1] are overwritten per case
-	keyBytes int                // total length of all field names
-	ser      base.LogSerializer // created on first use, lives as long as the setup (one setup at a time per process)
+	lay        layout
+	specs      []fieldSpec
+	idxA, idxB int // schema indices of the distinguished fields
+	hostIdx    int // schema index of the environment field "host" (carries the poison, varies in histories)
+	schema     base.LogSchema
+	names      []string
+	index      map[string]int
+	cfg        *fluentdforward.Config
+	fill       []string           // values of all slots; [idxA], [idxB] are overwritten per case
+	fillUn     []string           // their reference unescaping
+	keyBytes   int                // total length of all field names
+	freshSer   bool               // a new serializer for every case (limit group: the output is larger than any legal poison record)
+	ser        base.LogSerializer // created on first use, lives as long as the setup
+	ser2       base.LogSerializer // a second instance of the same configuration (alias group)
 }
 
 func holder(v bconfig.LogRewriterConfig) bconfig.LogRewriterConfigHolder {
 	return bconfig.LogRewriterConfigHolder{Location: "harness", Value: v}
 }
 
-func chainFor(r role, other string) []bconfig.LogRewriterConfigHolder {
-	switch r {
-	case rCopy:
-		return []bconfig.LogRewriterConfigHolder{holder(&rcopy.Config{})}
-	case rUnescape:
-		return []bconfig.LogRewriterConfigHolder{holder(&runescape.Config{})}
-	case rInlineCopy:
-		return []bconfig.LogRewriterConfigHolder{holder(&rinline.Config{Field: other}), holder(&rcopy.Config{})}
-	case rInlineUnescape:
-		return []bconfig.LogRewriterConfigHolder{holder(&rinline.Config{Field: other}), holder(&runescape.Config{})}
+func extraEnvValue(slot int) string {
+	// extra environment fields: alternate empty / short / 16 bytes
+	switch slot % 3 {
+	case 0:
+		return ""
+	case 1:
+		return fmt.Sprintf("e%d", slot)
 	}
-	return nil
+	return ascii(16)
 }
 
-func newSetup(lay layout, roleA, roleB role) *setup {
-	st := &setup{lay: lay, roleA: roleA, roleB: roleB}
-	st.names = []string{nameA, nameB}
-	st.roles = []role{roleA, roleB}
-	for i := 0; len(st.names) < lay.nfields && i < len(fillers); i++ {
-		st.names = append(st.names, fillers[i].name)
-		if lay.dense && i > 0 {
-			st.roles = append(st.roles, rPlain)
-		} else {
-			st.roles = append(st.roles, fillers[i].role)
+func newSetup(lay layout, roleA, roleB role) *setup { return newSetupWith(lay, roleA, roleB, nil) }
+
+// newSetupWith builds the field list of a layout; mod (optional) may change roles, chains and values of any field before
+// the configuration is built (the chains group uses it)
+func newSetupWith(lay layout, roleA, roleB role, mod func(specs []fieldSpec, idxA, idxB int)) *setup {
+	nfill := lay.nfields - 2
+	fill := make([]fieldSpec, 0, nfill)
+	for i := 0; i < nfill; i++ {
+		var f fieldSpec
+		if i < len(fillers) || lay.tail {
+			fl := fillers[i%len(fillers)]
+			f = fieldSpec{name: fl.name, base: fl.role, value: fl.value}
+			if i >= len(fillers) {
+				f.name = fmt.Sprintf("%s~%d", fl.name, i/len(fillers))
+			}
+			if lay.dense && i > 0 {
+				f.base = rPlain
+				if f.value == "" {
+					f.value = fmt.Sprintf("v%d", i+2)
+				}
+			}
+		} else { // layouts larger than 16 fields: extra environment fields
+			f = fieldSpec{name: fmt.Sprintf("env%02d", i-len(fillers)), base: rEnv, value: extraEnvValue(i + 2)}
+		}
+		f.label = "filler:" + roleNames[f.base]
+		fill = append(fill, f)
+	}
+	idxA, idxB := 0, 1
+	if lay.tail {
+		idxA, idxB = nfill, nfill+1
+	}
+	a := fieldSpec{name: nameA, base: roleA.base(), chain: chainOf(roleA.chain(), idxB), label: "A:" + roleNames[roleA]}
+	b := fieldSpec{name: nameB, base: roleB.base(), chain: chainOf(roleB.chain(), idxA), label: "B:" + roleNames[roleB]}
+	var specs []fieldSpec
+	if lay.tail {
+		specs = append(append(specs, fill...), a, b)
+	} else {
+		specs = append(append(specs, a, b), fill...)
+	}
+	if mod != nil {
+		mod(specs, idxA, idxB)
+	}
+	return buildSetup(lay, specs, idxA, idxB)
+}
+
+func buildSetup(lay layout, specs []fieldSpec, idxA, idxB int) *setup {
+	st := &setup{lay: lay, specs: specs, idxA: idxA, idxB: idxB, hostIdx: -1, index: make(map[string]int, len(specs))}
+	for i, f := range specs {
+		st.names = append(st.names, f.name)
+		st.index[f.name] = i
+		st.keyBytes += len(f.name)
+		if f.name == "host" {
+			st.hostIdx = i
 		}
 	}
-	for i := 0; len(st.names) < lay.nfields; i++ { // layouts larger than 16: extra environment fields
-		st.names = append(st.names, fmt.Sprintf("env%02d", i))
-		st.roles = append(st.roles, rEnv)
+	if st.hostIdx < 0 || specs[st.hostIdx].base != rEnv {
+		panic("harness bug: every layout has the environment field \"host\"")
 	}
-	schema, err := base.NewLogSchema(st.names, lay.nfields+lay.reserved)
+	schema, err := base.NewLogSchema(st.names, len(specs)+lay.reserved)
 	if err != nil {
 		panic(err)
 	}
 	st.schema = schema
 	ser := fluentdforward.SerializationConfig{RewriteFields: map[string][]bconfig.LogRewriterConfigHolder{}}
 	// environment and hidden lists in REVERSE schema order: the output must not depend on the order of these lists
-	for i := len(st.names) - 1; i >= 0; i-- {
-		switch st.roles[i].base() {
+	for i := len(specs) - 1; i >= 0; i-- {
+		switch specs[i].base {
 		case rEnv:
-			ser.EnvironmentFields = append(ser.EnvironmentFields, st.names[i])
+			ser.EnvironmentFields = append(ser.EnvironmentFields, specs[i].name)
 		case rHidden:
-			ser.HiddenFields = append(ser.HiddenFields, st.names[i])
+			ser.HiddenFields = append(ser.HiddenFields, specs[i].name)
+		case rEnvHidden:
+			ser.EnvironmentFields = append(ser.EnvironmentFields, specs[i].name)
+			ser.HiddenFields = append(ser.HiddenFields, specs[i].name)
 		}
-	}
-	st.envOrder = ser.EnvironmentFields
-	if c := chainFor(roleA.chain(), nameB); c != nil {
-		ser.RewriteFields[nameA] = c
-	}
-	if c := chainFor(roleB.chain(), nameA); c != nil {
-		ser.RewriteFields[nameB] = c
+		if c := specs[i].chain; c != nil {
+			var hs []bconfig.LogRewriterConfigHolder
+			for _, j := range c.inl {
+				hs = append(hs, holder(&rinline.Config{Field: specs[j].name}))
+			}
+			if c.term == rCopy {
+				hs = append(hs, holder(&rcopy.Config{}))
+			} else {
+				hs = append(hs, holder(&runescape.Config{}))
+			}
+			ser.RewriteFields[specs[i].name] = hs
+		}
 	}
 	st.cfg = &fluentdforward.Config{
 		Serialization: ser,
@@ -314,53 +476,53 @@ func newSetup(lay layout, roleA, roleB role) *setup {
 	if err := st.cfg.VerifyConfig(schema); err != nil {
 		panic(fmt.Sprintf("harness bug: configuration rejected: %v", err))
 	}
-	st.fill = make([]string, lay.nfields+lay.reserved)
-	for i := 2; i < lay.nfields; i++ {
-		st.fill[i] = st.fillerValue(i)
-		if lay.dense && st.fill[i] == "" {
-			st.fill[i] = fmt.Sprintf("v%d", i)
-		}
+	n := len(specs) + lay.reserved
+	st.fill = make([]string, n)
+	st.fillUn = make([]string, n)
+	for i, f := range specs {
+		st.fill[i] = f.value
 	}
-	for i := lay.nfields; i < len(st.fill); i++ {
+	for i := len(specs); i < n; i++ {
 		st.fill[i] = fmt.Sprintf("RESERVED-SLOT-%d-must-not-be-emitted", i)
 	}
-	for _, n := range st.names {
-		st.keyBytes += len(n)
+	for i, s := range st.fill {
+		st.fillUn[i] = refUnescape(s)
 	}
 	return st
 }
 
 // poisonBytes is 0xC1 repeated: the one code MessagePack never uses, so stale buffer contents cannot pass for data.
-var poisonBytes = strings.Repeat("\xc1", 600*1024)
+// It is as long as the largest legal record.
+var poisonBytes = strings.Repeat("\xc1", defs.InputLogMaxRecordBytes)
 
-// prepare returns the setup's serializer with its buffer in a state that is a function of the case alone: the first n
-// bytes (and a short deterministic header) are overwritten by serializing a record whose only non-empty field is the
-// environment field "host" = 0xC1 x n. The serializer object itself is long-lived, as in the agent.
-func (st *setup) prepare(n int) base.LogSerializer {
-	if st.ser == nil {
-		st.ser = st.cfg.NewSerializer(logger.Root(), st.schema, "tag")
+func (st *setup) newSerializer() base.LogSerializer {
+	return st.cfg.NewSerializer(logger.Root(), st.schema, "tag")
+}
+
+// poisonRecord is a record whose only non-empty field is the environment field "host" = 0xC1 x n (a legal record)
+func (st *setup) poisonRecord(n int) *base.LogRecord {
+	if n > len(poisonBytes) {
+		n = len(poisonBytes)
 	}
 	fields := make(base.LogFields, len(st.fill))
-	fields[2] = poisonBytes[:n]
-	out := st.ser.SerializeRecord(&base.LogRecord{Fields: fields, RawLength: n, Timestamp: time.Unix(0, 0)})
-	if len(out) < n {
+	fields[st.hostIdx] = poisonBytes[:n]
+	return &base.LogRecord{Fields: fields, RawLength: n, Timestamp: time.Unix(0, 0)}
+}
+
+// prepare returns the setup's serializer with its buffer in a state that is a function of the case alone: the first n
+// bytes (and a short deterministic header) are overwritten by serializing the poison record. The serializer object
+// itself is long-lived, as in the agent (except in the limit group, where no legal record could overwrite all that the
+// case will write: there every case gets a new serializer).
+func (st *setup) prepare(n int) base.LogSerializer {
+	if st.ser == nil || st.freshSer {
+		st.ser = st.newSerializer()
+	}
+	rec := st.poisonRecord(n)
+	out := st.ser.SerializeRecord(rec)
+	if len(out) < rec.RawLength {
 		panic("harness bug: poison record was not serialized")
 	}
 	return st.ser
-}
-
-func (st *setup) fillerValue(i int) string {
-	if i-2 < len(fillers) {
-		return fillers[i-2].value
-	}
-	// extra environment fields: alternate empty / short / 16 bytes
-	switch i % 3 {
-	case 0:
-		return ""
-	case 1:
-		return fmt.Sprintf("e%d", i)
-	}
-	return ascii(16)
 }
 
 // ---------------------------------------------------------------------------------------------------------------
@@ -388,6 +550,16 @@ func stamps(thorough bool) []stamp {
 		)
 	}
 	return ts
+}
+
+// historyStamps: timestamps of consecutive records that share the second, the millisecond, the microsecond, or only the
+// sub-second part with each other
+var historyStamps = []stamp{
+	{"s0.123456000", 1600000000, 123456000, 0},
+	{"s0.123999000", 1600000000, 123999000, 0}, // same millisecond
+	{"s0.123456789", 1600000000, 123456789, 0}, // same microsecond
+	{"s0.999999999", 1600000000, 999999999, 0}, // same second
+	{"s1.123456000", 1600000001, 123456000, 0}, // next second, same nanoseconds
 }
 
 func (s stamp) time() time.Time {
@@ -464,45 +636,92 @@ func (p parts) equal(got []byte) bool {
 func (p parts) join() string { return strings.Join(p, "") }
 
 type expectation struct {
-	top   map[string][]parts // key -> acceptable values (more than one only where the documentation is silent)
-	env   map[string]string
-	secs  uint32
-	nanos uint32
+	top    map[string][]parts // key -> acceptable values (more than one only where the documentation is silent)
+	env    map[string]string
+	envOpt map[string]string // environment fields that are also hidden: nested with this value, or absent
+	secs   uint32
+	nanos  uint32
 }
 
 // expected computes the visible fields of a record: non-empty, non-hidden, non-environment fields at the top level (a
-// rewritten field holds its rewrite), all environment fields nested, empty ones included. unesc[i] is the reference
-// unescaping of fields[i] for the two distinguished fields.
-func (st *setup) expected(fields []string, unesc [2]string, unescaped bool, ts stamp) *expectation {
+// rewritten field holds its rewrite), all environment fields nested, empty ones included. un[i] is the reference
+// unescaping of fields[i].
+func (st *setup) expected(fields, un []string, unescaped bool, ts stamp) *expectation {
 	ex := &expectation{top: make(map[string][]parts, len(st.names)), env: make(map[string]string, 4), secs: uint32(ts.sec), nanos: uint32(ts.ns)}
-	for i, name := range st.names {
+	for i := range st.specs {
+		f := &st.specs[i]
 		v := fields[i]
-		switch r := st.roles[i].base(); {
-		case r == rEnv:
-			ex.env[name] = v
-		case r == rHidden:
+		switch {
+		case f.base == rEnv:
+			ex.env[f.name] = v
+		case f.base == rEnvHidden:
+			if ex.envOpt == nil {
+				ex.envOpt = map[string]string{}
+			}
+			ex.envOpt[f.name] = v
+		case f.base == rHidden:
 		case v == "":
-		case !r.rewritten():
-			ex.top[name] = []parts{{v}}
+		case f.chain == nil:
+			ex.top[f.name] = []parts{{v}}
 		default:
-			body := v
-			if r.unescapes() && !unescaped {
-				body = unesc[i]
-			}
-			other := 1 - i // A inlines B, B inlines A
-			if r.inlines() && fields[other] != "" {
-				acc := []parts{{st.names[other], "=", fields[other], " ", body}}
-				if r.unescapes() && !unescaped && unesc[other] != fields[other] {
-					// the documentation does not say whether a later "unescape" step also applies to the inlined prefix
-					acc = append(acc, parts{st.names[other], "=", unesc[other], " ", body})
-				}
-				ex.top[name] = acc
-			} else {
-				ex.top[name] = []parts{{body}}
-			}
+			ex.top[f.name] = st.rewritten(f.chain, i, fields, un, unescaped)
 		}
 	}
 	return ex
+}
+
+// rewritten lists the acceptable results of a rewriter chain on field i: "inline: insert a field to the beginning if
+// present (not empty), e.g. class=MyClass1 Original log message"; "unescape: ... Skipped if a log is marked by input as
+// unescaped". The first result is the preferred one (used in messages).
+func (st *setup) rewritten(c *chainSpec, i int, fields, un []string, unescaped bool) []parts {
+	body := fields[i]
+	unescapes := c.term == rUnescape && !unescaped
+	if unescapes {
+		body = un[i]
+	}
+	var present []int
+	prefixEscaped := false
+	for _, j := range c.inl {
+		if fields[j] != "" {
+			present = append(present, j)
+			if un[j] != fields[j] {
+				prefixEscaped = true
+			}
+		}
+	}
+	if len(present) == 0 {
+		return []parts{{body}}
+	}
+	build := func(order []int, vals []string) parts {
+		p := make(parts, 0, 4*len(order)+1)
+		for _, j := range order {
+			p = append(p, st.names[j], "=", vals[j], " ")
+		}
+		return append(p, body)
+	}
+	acc := []parts{build(present, fields)}
+	if unescapes && prefixEscaped {
+		// the documentation does not say whether a later "unescape" step also applies to the inlined prefixes
+		acc = append(acc, build(present, un))
+	}
+	if len(present) > 1 {
+		// nor whether the first or the last "inline" step of a chain ends up in front: both orders are accepted
+		rev := make([]int, len(present))
+		same := true
+		for k, j := range present {
+			rev[len(present)-1-k] = j
+		}
+		for k := range rev {
+			same = same && rev[k] == present[k]
+		}
+		if !same {
+			acc = append(acc, build(rev, fields))
+			if unescapes && prefixEscaped {
+				acc = append(acc, build(rev, un))
+			}
+		}
+	}
+	return acc
 }
 
 // ---------------------------------------------------------------------------------------------------------------
@@ -674,53 +893,159 @@ func matchAny(acc []parts, got []byte) bool {
 }
 
 // ---------------------------------------------------------------------------------------------------------------
-// one case
+// one record through the serializer
 
-func (st *setup) roleOf(name string) string {
-	for i, n := range st.names {
-		if n == name {
-			if i == 0 {
-				return "A:" + roleNames[st.roles[i]]
-			}
-			if i == 1 {
-				return "B:" + roleNames[st.roles[i]]
-			}
-			return "filler:" + roleNames[st.roles[i]]
-		}
-	}
-	return "unknown-key"
+// recSpec is one record of a case
+type recSpec struct {
+	a, b      *value
+	host      *value // nil: the fixed value "h"; else the value of the environment field "host"
+	unescaped bool
+	ts        stamp
 }
 
-func (st *setup) check(ctx *seq.Ctx, a, b *value, unescaped bool, ts stamp) (string, string) {
-	va, vb := a.s, b.s
-	unesc := [2]string{a.un, b.un}
-	nslots := st.lay.nfields + st.lay.reserved
-	fieldStrings := make([]string, nslots)
-	copy(fieldStrings, st.fill)
-	fieldStrings[0], fieldStrings[1] = va, vb
-	fields := make(base.LogFields, nslots)
-	raw := 0
-	for i, s := range fieldStrings {
-		fields[i] = s
+// What happens between the return of SerializeRecord and the reading of the stream. "Output LogStream is transient and
+// only usable before the next call" (base.LogSerializer) - the next call of THAT serializer; "The string values inside
+// are temporary and only valid until record is released" (base.LogRecord) - and the pipeline releases the record right
+// after SerializeRecord, before the stream is copied into the chunk.
+const (
+	mRecycled  = 1 << iota // the field values alias a recycled record buffer, overwritten as soon as SerializeRecord has returned
+	mOtherSame             // another serializer of the same configuration (another pipeline) serializes a record
+	mOtherDiff             // a serializer of a different configuration (another output) serializes a record
+	mNewSer                // a new serializer of the same configuration is created (a pipeline starts) and serializes a record
+)
+
+func modeName(m int) string {
+	var s []string
+	for i, n := range []string{"input-buffer-recycled", "other-serializer-same-config", "other-serializer-other-config", "new-serializer"} {
+		if m&(1<<i) != 0 {
+			s = append(s, n)
+		}
+	}
+	if len(s) == 4 {
+		return "all"
+	}
+	return strings.Join(s, "+")
+}
+
+// recycleBuf is the one record buffer of a worker process: every record of the recycled mode is laid out in it
+var recycleBuf = make([]byte, 0, defs.InputLogMaxRecordBytes)
+
+var otherSer base.LogSerializer
+
+// otherSerializer is a serializer of an unrelated configuration (3 fields, "log" rewritten by unescape)
+func otherSerializer() base.LogSerializer {
+	if otherSer == nil {
+		schema := base.MustNewLogSchema([]string{"host", "log", "secret"})
+		cfg := &fluentdforward.Config{
+			Serialization: fluentdforward.SerializationConfig{
+				EnvironmentFields: []string{"host"},
+				HiddenFields:      []string{"secret"},
+				RewriteFields:     map[string][]bconfig.LogRewriterConfigHolder{"log": {holder(&runescape.Config{})}},
+			},
+			MessageMode: forwardprotocol.ModePackedForward,
+			Upstream:    fluentdforward.UpstreamConfig{Address: "localhost:24224", MaxDuration: time.Minute},
+		}
+		if err := cfg.VerifyConfig(schema); err != nil {
+			panic(err)
+		}
+		otherSer = cfg.NewSerializer(logger.Root(), schema, "other")
+	}
+	return otherSer
+}
+
+func (st *setup) materialize(spec *recSpec) (fields, un []string, raw int) {
+	fields = make([]string, len(st.fill))
+	un = make([]string, len(st.fill))
+	copy(fields, st.fill)
+	copy(un, st.fillUn)
+	fields[st.idxA], un[st.idxA] = spec.a.s, spec.a.un
+	fields[st.idxB], un[st.idxB] = spec.b.s, spec.b.un
+	if spec.host != nil {
+		fields[st.hostIdx], un[st.hostIdx] = spec.host.s, spec.host.un
+	}
+	for _, s := range fields {
 		raw += len(s)
 	}
 	if raw > defs.InputLogMaxRecordBytes {
 		panic("harness bug: record larger than the configured record limit")
 	}
-	ex := st.expected(fieldStrings, unesc, unescaped, ts)
+	return fields, un, raw
+}
 
-	// long-lived serializer whose buffer is first overwritten with 0xC1 beyond anything this case can produce; fresh record
+// bound is an upper bound of the size of the event (every value once, once more for each inline step that refers to it,
+// keys and headers): the buffer is poisoned up to it
+func (st *setup) bound(fields []string, raw int) int {
 	bound := raw + 2*st.keyBytes + 8*len(st.names) + 256
-	for i := 0; i < 2; i++ {
-		if st.roles[i].inlines() {
-			bound += len(fieldStrings[1-i]) + len(st.names[1-i]) + 2
+	for i := range st.specs {
+		if c := st.specs[i].chain; c != nil {
+			for _, j := range c.inl {
+				bound += len(fields[j]) + len(st.names[j]) + 2
+			}
 		}
 	}
-	serializer := st.prepare(bound)
-	record := &base.LogRecord{Fields: fields, RawLength: raw, Timestamp: ts.time(), Unescaped: unescaped}
-	out := []byte(serializer.SerializeRecord(record))
+	return bound
+}
 
-	cover := func(name string) { ctx.Groups["cover:"+name]++ }
+// call serializes one record and returns the stream, NOT copied: it is read in place after the events of the mode
+func (st *setup) call(ser base.LogSerializer, values []string, raw int, spec *recSpec, mode int, bound int) []byte {
+	fields := make(base.LogFields, len(values))
+	var used []byte
+	if mode&mRecycled != 0 {
+		used = recycleBuf[:0]
+		for i, s := range values {
+			if s == "" {
+				continue
+			}
+			off := len(used)
+			used = append(used, s...)
+			fields[i] = unsafe.String(&used[off], len(s))
+		}
+		if len(used) > cap(recycleBuf) {
+			panic("harness bug: record buffer reallocated")
+		}
+	} else {
+		for i, s := range values {
+			fields[i] = s
+		}
+	}
+	record := &base.LogRecord{Fields: fields, RawLength: raw, Timestamp: spec.ts.time(), Unescaped: spec.unescaped}
+	out := []byte(ser.SerializeRecord(record))
+	if mode&mRecycled != 0 {
+		copy(used, poisonBytes) // released: the buffer belongs to the next record now
+		for i := range fields {
+			fields[i] = ""
+		}
+	}
+	if mode&mOtherSame != 0 {
+		if st.ser2 == nil {
+			st.ser2 = st.newSerializer()
+		}
+		st.ser2.SerializeRecord(st.poisonRecord(bound))
+	}
+	if mode&mOtherDiff != 0 {
+		n := bound
+		if n > len(poisonBytes) {
+			n = len(poisonBytes)
+		}
+		otherSerializer().SerializeRecord(&base.LogRecord{Fields: base.LogFields{poisonBytes[:n], "", ""}, RawLength: n, Timestamp: time.Unix(0, 0)})
+	}
+	if mode&mNewSer != 0 {
+		st.newSerializer().SerializeRecord(st.poisonRecord(bound))
+	}
+	return out
+}
+
+// ---------------------------------------------------------------------------------------------------------------
+// comparison of one stream with the expectation
+
+func (st *setup) roleOf(name string) string {
+	if i, ok := st.index[name]; ok {
+		return st.specs[i].label
+	}
+	return "unknown-key"
+}
+
+func (st *setup) verify(out []byte, ex *expectation, fields, un []string, unescaped bool, bound int) (string, string) {
 	if len(out) == 0 {
 		return "empty-output", "SerializeRecord returned an empty stream for a record within the configured limits"
 	}
@@ -749,22 +1074,22 @@ func (st *setup) check(ctx *seq.Ctx, a, b *value, unescaped bool, ts stamp) (str
 			return "fields:unexpected:" + st.roleOf(p.k), fmt.Sprintf("key %q (%d-byte value) is emitted but is not a visible field of the record", clipS(p.k), len(p.v))
 		}
 		if !matchAny(acc, p.v) {
-			role := st.roleOf(p.k)
-			k := "value:" + role
-			idx := 0
-			if p.k == nameB {
-				idx = 1
-			}
-			if (p.k == nameA || p.k == nameB) && st.roles[idx].unescapes() && !unescaped {
+			i := st.index[p.k]
+			f := &st.specs[i]
+			k := "value:" + f.label
+			if f.chain != nil && f.chain.term == rUnescape && !unescaped {
 				// classify: the field was copied escaped although the record was not marked unescaped
-				if matchAny(st.expected(fieldStrings, unesc, true, ts).top[p.k], p.v) {
-					k = "value:unescape-skipped:" + role
-					if idx == 1 && st.roles[0].unescapes() && va != "" {
-						k = "value:unescape-skipped-after-earlier-unescape-field"
+				if matchAny(st.rewritten(f.chain, i, fields, un, true), p.v) {
+					k = "value:unescape-skipped:" + f.label
+					for j := 0; j < i; j++ {
+						if e := &st.specs[j]; e.base == rPlain && e.chain != nil && e.chain.term == rUnescape && fields[j] != "" {
+							k = "value:unescape-skipped-after-earlier-unescape-field"
+							break
+						}
 					}
 				}
 			}
-			return k, fmt.Sprintf("field %q: %s", p.k, describeDiff(string(p.v), acc[0].join()))
+			return k, fmt.Sprintf("field %q: %s", clipS(p.k), describeDiff(string(p.v), acc[0].join()))
 		}
 	}
 	for k := range ex.top {
@@ -784,10 +1109,13 @@ func (st *setup) check(ctx *seq.Ctx, a, b *value, unescaped bool, ts stamp) (str
 		seenEnv[p.k] = true
 		want, ok := ex.env[p.k]
 		if !ok {
+			want, ok = ex.envOpt[p.k]
+		}
+		if !ok {
 			return "env:unexpected:" + st.roleOf(p.k), fmt.Sprintf("environment key %q is not an environment field", clipS(p.k))
 		}
 		if want != string(p.v) {
-			return "env:value:" + st.roleOf(p.k), fmt.Sprintf("environment field %q: %s", p.k, describeDiff(string(p.v), want))
+			return "env:value:" + st.roleOf(p.k), fmt.Sprintf("environment field %q: %s", clipS(p.k), describeDiff(string(p.v), want))
 		}
 	}
 	for k := range ex.env {
@@ -813,40 +1141,61 @@ func (st *setup) check(ctx *seq.Ctx, a, b *value, unescaped bool, ts stamp) (str
 		}
 	}
 	envMap, ok := entry.Record["environment"].(map[string]interface{})
-	if !ok || len(envMap) != len(ex.env) {
-		return "fluentlib:environment", fmt.Sprintf("EventEntry.Record[environment] = %T with %d keys, want a map with %d keys", entry.Record["environment"], len(envMap), len(ex.env))
+	if !ok || len(envMap) != len(ev.env) {
+		return "fluentlib:environment", fmt.Sprintf("EventEntry.Record[environment] = %T with %d keys, want a map with %d keys", entry.Record["environment"], len(envMap), len(ev.env))
 	}
 	for k, want := range ex.env {
 		if got, _ := envMap[k].(string); got != want {
 			return "fluentlib:environment", fmt.Sprintf("environment[%q]: %s", clipS(k), describeDiff(got, want))
 		}
 	}
+	return "", ""
+}
 
-	// vacuity counters: which branches of the encoder did this case reach
-	if len(st.names)+1 < 16 {
+// cover counts which branches of the encoder a (passed) record reached: vacuity counters
+func (st *setup) cover(ctx *seq.Ctx, ex *expectation, fields []string, unescaped bool) {
+	cover := func(name string) { ctx.Groups["cover:"+name]++ }
+	switch n := len(st.names) + 1; {
+	case n < 16:
 		cover("root-fixmap")
-	} else {
+	case n <= 32:
 		cover("root-map16")
+	case n <= 64:
+		cover("root-map16-33..64-fields")
+	default:
+		cover("root-map16-over-64-fields")
 	}
-	if len(ex.env) < 16 {
+	if len(ex.env)+len(ex.envOpt) < 16 {
 		cover("env-fixmap")
 	} else {
 		cover("env-map16")
 	}
-	for i := 0; i < 2; i++ {
-		r := st.roles[i]
-		v := fieldStrings[i]
-		if !r.rewritten() || v == "" {
+	for i := range st.specs {
+		f := &st.specs[i]
+		v := fields[i]
+		if f.chain == nil || f.base != rPlain || v == "" {
 			continue
 		}
 		reserved := len(v)
-		if r.inlines() && fieldStrings[1-i] != "" {
-			reserved += len(st.names[1-i]) + 2 + len(fieldStrings[1-i])
+		npresent := 0
+		for _, j := range f.chain.inl {
+			if fields[j] != "" {
+				reserved += len(st.names[j]) + 2 + len(fields[j])
+				npresent++
+			}
+		}
+		switch {
+		case npresent > 1:
+			cover("inline-prefixes-2-or-more")
+		case npresent == 1:
 			cover("inline-prefix-present")
-		} else if r.inlines() {
+		case len(f.chain.inl) > 0:
 			cover("inline-prefix-absent")
 		}
-		actual := ex.top[st.names[i]][0].size()
+		if i > 1 && i < len(st.specs)-2 {
+			cover("rewritten-filler-field")
+		}
+		actual := ex.top[f.name][0].size()
 		switch {
 		case reserved >= 65536 && actual < 65536:
 			cover("rewrite-reserved-str32-actual<65536")
@@ -857,9 +1206,68 @@ func (st *setup) check(ctx *seq.Ctx, a, b *value, unescaped bool, ts stamp) (str
 		default:
 			cover("rewrite-str16-same-length")
 		}
-		if r.unescapes() && unescaped {
+		if f.chain.term == rUnescape && unescaped {
 			cover("unescape-skipped-by-flag")
 		}
+	}
+}
+
+// check is the single-record case: serializer buffer poisoned, one record, the events of the mode, comparison
+func (st *setup) check(ctx *seq.Ctx, spec *recSpec, mode int) (string, string) {
+	fields, un, raw := st.materialize(spec)
+	ex := st.expected(fields, un, spec.unescaped, spec.ts)
+	bound := st.bound(fields, raw)
+	out := st.call(st.prepare(bound), fields, raw, spec, mode, bound)
+	key, msg := st.verify(out, ex, fields, un, spec.unescaped, bound)
+	if key == "" {
+		st.cover(ctx, ex, fields, spec.unescaped)
+		return "", ""
+	}
+	if mode != 0 {
+		// classify: is the same record right when nothing happens between the call and the reading of the stream?
+		out = st.call(st.prepare(bound), fields, raw, spec, 0, bound)
+		if k2, _ := st.verify(out, ex, fields, un, spec.unescaped, bound); k2 == "" {
+			return "alias:" + modeName(mode) + ":" + key, "the stream is right when read at once, but not after [" + modeName(mode) + "]: " + msg
+		}
+	}
+	return key, msg
+}
+
+// checkHistory runs a sequence of records through ONE serializer with nothing in between (the buffer is poisoned before
+// the first record only); every record is laid out in the same recycled record buffer, as the pooled records of the agent
+func (st *setup) checkHistory(ctx *seq.Ctx, recs []*recSpec) (string, string) {
+	type built struct {
+		fields, un []string
+		raw        int
+		ex         *expectation
+	}
+	bs := make([]built, len(recs))
+	bound := 0
+	for k, r := range recs {
+		b := &bs[k]
+		b.fields, b.un, b.raw = st.materialize(r)
+		b.ex = st.expected(b.fields, b.un, r.unescaped, r.ts)
+		if n := st.bound(b.fields, b.raw); n > bound {
+			bound = n
+		}
+	}
+	ser := st.prepare(bound)
+	for k, r := range recs {
+		b := &bs[k]
+		out := st.call(ser, b.fields, b.raw, r, mRecycled, bound)
+		key, msg := st.verify(out, b.ex, b.fields, b.un, r.unescaped, bound)
+		if key == "" {
+			st.cover(ctx, b.ex, b.fields, r.unescaped)
+			continue
+		}
+		if k > 0 {
+			// classify: is the same record right when it is the first one?
+			out = st.call(st.prepare(bound), b.fields, b.raw, r, mRecycled, bound)
+			if k2, _ := st.verify(out, b.ex, b.fields, b.un, r.unescaped, bound); k2 == "" {
+				return "history:" + key, fmt.Sprintf("record %d of the sequence is right when serialized first, but not after its predecessors: %s", k+1, msg)
+			}
+		}
+		return key, fmt.Sprintf("record %d of the sequence: %s", k+1, msg)
 	}
 	return "", ""
 }
@@ -872,167 +1280,686 @@ func min(a, b int) int {
 }
 
 // ---------------------------------------------------------------------------------------------------------------
+// enumeration
+
+// selector spreads the enumeration over numPasses passes: unit number n (a whole setup = configuration; in the sweep and
+// history groups, which have few setups, a row of values) is evaluated in pass n mod numPasses. Every pass walks all groups, so a run cut by the deadline has
+// thinned every group instead of having dropped the last ones. The sequence of take() calls is the same in every pass.
+type selector struct{ pass, n int }
+
+const numPasses = 8
+
+func (s *selector) take() bool {
+	s.n++
+	return s.n%numPasses == s.pass
+}
+
+type domain struct {
+	thorough bool
+	values   []*value // lengths x content classes
+	small    []*value
+	tss      []stamp
+	vstamp   []bool // the two timestamps of the big value product
+	subjects []sweepSubject
+	empty    *value
+	limit    map[string]*value // values of the limit group, built on demand
+}
 
 func enumerate(ctx *seq.Ctx) {
-	thorough := ctx.Thorough()
-	classes := contentClasses(thorough)
-	values := buildValues(classes)
-	tss := stamps(thorough)
-	// layouts in three classes (the cheap ones first so that a deadline cannot starve them):
-	//   class 0: 3+2, 16+2 (reserved slots), 14/15/16 dense   class 1: 14, 15   class 2: 3, 16
-	type classedLayout struct {
-		layout
-		class int
+	d := &domain{thorough: ctx.Thorough(), empty: mkValue("0:ascii", ""), limit: map[string]*value{}}
+	classes := contentClasses(d.thorough)
+	d.values = buildValues(classes)
+	for _, v := range d.values {
+		if v.small {
+			d.small = append(d.small, v)
+		}
 	}
-	layouts := []classedLayout{{layout{3, 2, false}, 0}, {layout{16, 2, false}, 0}, {layout{14, 0, true}, 0}, {layout{15, 0, true}, 0}, {layout{16, 0, true}, 0},
-		{layout{14, 0, false}, 1}, {layout{15, 0, false}, 1}, {layout{3, 0, false}, 2}, {layout{16, 0, false}, 2}}
-	// value sets: "listed" = the 11 lengths x 14 content classes named in the plan; "all" adds the thorough-only classes;
-	// "small" = lengths {0,1,16,65536} x {ascii, mixed}
-	listedClass := func(ci int) bool {
-		name := classes[ci].name
-		for _, c := range contentClasses(false) {
-			if c.name == name {
-				return true
+	d.tss = stamps(d.thorough)
+	for _, ts := range d.tss {
+		// timestamps of the big value product: ns=999999999 and the first second after the 2038 boundary
+		d.vstamp = append(d.vstamp, ts.name == "ns999999999" || ts.name == "2038-first")
+	}
+	d.subjects = sweepSubjects()
+	ctx.Note("domain", fmt.Sprintf("9 layouts x %d x %d roles x 2 flags; %d timestamps; %d lengths x %d content classes; %d passes", numRoles, numRoles, len(d.tss), len(lengthClasses), len(classes), numPasses))
+	for pass := 0; pass < numPasses; pass++ {
+		sel := &selector{pass: pass}
+		for _, group := range []func(*seq.Ctx, *selector) bool{d.envmap, d.overlap, d.sweep, d.chains, d.history, d.alias, d.wide, d.inlineSum, d.atLimit, d.product} {
+			if !group(ctx, sel) {
+				return
 			}
 		}
-		return false
 	}
-	isListed := make([]bool, len(values))
-	isSmall := make([]bool, len(values))
-	for i, v := range values {
-		isListed[i] = listedClass(v.ci)
-		n := lengthClasses[v.li]
-		isSmall[i] = (n == 0 || n == 1 || n == 16 || n == 65536) && (classes[v.ci].name == "ascii" || classes[v.ci].name == "mixed")
-	}
-	// timestamps of the big value product: ns=999999999 and the first second after the 2038 boundary
-	valueStamps := map[string]bool{"ns999999999": true, "2038-first": true}
-	ctx.Note("domain", fmt.Sprintf("%d layouts x %d x %d roles x 2 flags; %d timestamps; %d lengths x %d content classes", len(layouts), numRoles, numRoles, len(tss), len(lengthClasses), len(classes)))
+}
 
-	// pairOK decides which (A value, B value) pairs are crossed with a timestamp on a layout. With V = the two value
-	// timestamps, O = the other timestamps:
-	//   level 0: small x small at every timestamp
-	//   level 1: V: listed x listed;                 O: small x small
-	//   level 2: V: all x listed U listed x all;     O: listed x listed   (contains the full planned product)
-	// quick: layout classes 0,1 -> level 0, class 2 -> level 1.  thorough: class 0 -> level 1, classes 1,2 -> level 2.
-	pairOK := func(class int, ts stamp, ai, bi int) bool {
-		level := 0
-		switch {
-		case thorough && class >= 1:
-			level = 2
-		case thorough || class == 2:
-			level = 1
-		}
-		v := valueStamps[ts.name]
-		switch {
-		case level == 2 && v:
-			return isListed[ai] || isListed[bi]
-		case level == 2, level == 1 && v:
-			return isListed[ai] && isListed[bi]
-		}
-		return isSmall[ai] && isSmall[bi]
-	}
+func bname(r role) string { return roleNames[r] }
 
-	// ---- environment maps on both sides of the fixmap boundary (15 / 16 / 17 environment fields): layouts of 17-21 named
-	// fields whose extra fields are all environment fields; reduced value set for A and B (lengths 0, 1, 16, 65536)
-	small := []value{}
-	for i, v := range values {
-		if isSmall[i] {
-			small = append(small, v)
+// pairs runs the cases A x B x Unescaped of one setup at one timestamp in one mode
+func (d *domain) pairs(ctx *seq.Ctx, st *setup, prefix string, as, bs []*value, ts stamp, mode int, roleA, roleB role) {
+	for ui := 0; ui < 2; ui++ {
+		for _, a := range as {
+			for _, b := range bs {
+				if !ctx.Mine() {
+					ctx.Skip()
+					continue
+				}
+				id := fmt.Sprintf("%s/A=%s:%s/B=%s:%s/u%d", prefix, bname(roleA), a.name, bname(roleB), b.name, ui)
+				nontrivial := (a.s != "" && roleA.base() != rHidden) || (b.s != "" && roleB.base() != rHidden)
+				spec := &recSpec{a: a, b: b, unescaped: ui == 1, ts: ts}
+				ctx.Case(id, nontrivial, id, func() (string, string) { return st.check(ctx, spec, mode) })
+			}
 		}
 	}
+}
+
+// ---- environment maps on both sides of the fixmap boundary (15 / 16 / 17 environment fields): layouts of 27-30 named
+// fields whose extra fields are all environment fields; reduced value set for A and B (lengths 0, 1, 16, 65536)
+func (d *domain) envmap(ctx *seq.Ctx, sel *selector) bool {
 	for _, nf := range []int{27, 28, 29, 30} { // 3 environment fillers among the first 16 + (nf-16) extra ones = 14..17, +1 for each of A, B that is an environment field
 		for _, ra := range []role{rPlain, rEnv, rInlineUnescape} {
 			for _, rb := range []role{rPlain, rEnv, rHidden} {
 				if ctx.Stop() {
-					return
+					return false
 				}
-				st := newSetup(layout{nf, 0, false}, ra, rb)
+				if !sel.take() {
+					continue
+				}
+				st := newSetup(layout{nfields: nf}, ra, rb)
 				nenv := 0
-				for _, r := range st.roles {
-					if r == rEnv {
+				for _, f := range st.specs {
+					if f.base == rEnv {
 						nenv++
 					}
 				}
 				ctx.Group(fmt.Sprintf("envmap/%d-environment-fields", nenv))
-				for ui := 0; ui < 2; ui++ {
-					for ai := range small {
-						for bi := range small {
-							a, b := &small[ai], &small[bi]
-							id := fmt.Sprintf("envmap/s%d/A=%s:%d:%s/B=%s:%d:%s/u%d", nf, roleNames[ra], lengthClasses[a.li], classes[a.ci].name,
-								roleNames[rb], lengthClasses[b.li], classes[b.ci].name, ui)
-							unescaped := ui == 1
-							ctx.Case(id, true, id, func() (string, string) { return st.check(ctx, a, b, unescaped, tss[3]) })
-						}
-					}
-				}
+				d.pairs(ctx, st, fmt.Sprintf("envmap/s%d", nf), d.small, d.small, d.tss[3], 0, ra, rb)
 			}
 		}
 	}
+	return true
+}
 
-	// ---- overlapping roles: a field listed as environment / hidden field that ALSO has a rewriter chain, against every role of
-	// the other field; layouts 3 and 16 (+2 reserved), small value set
-	for _, cl := range layouts[:2] {
-		lay := cl.layout
+// ---- overlapping roles: a field listed as environment / hidden field that ALSO has a rewriter chain, or listed as both
+// environment and hidden field, against every role of the other field; layouts 3 and 16 (+2 reserved), small value set
+func (d *domain) overlap(ctx *seq.Ctx, sel *selector) bool {
+	for _, lay := range []layout{{nfields: 3, reserved: 2}, {nfields: 16, reserved: 2}} {
 		for ra := role(0); ra < numAllRoles; ra++ {
 			for rb := role(0); rb < numAllRoles; rb++ {
 				if ra == numRoles || rb == numRoles || !(ra.overlapped() || rb.overlapped()) {
 					continue
 				}
 				if ctx.Stop() {
-					return
+					return false
+				}
+				if !sel.take() {
+					continue
 				}
 				st := newSetup(lay, ra, rb)
 				ctx.Group("overlap/" + lay.String())
-				for ui := 0; ui < 2; ui++ {
-					for ai := range small {
-						for bi := range small {
+				d.pairs(ctx, st, "overlap/"+lay.String(), d.small, d.small, d.tss[3], 0, ra, rb)
+			}
+		}
+	}
+	return true
+}
+
+// ---- byte sweep: all 256 byte values (and five whole multi-byte characters) as ordinary content, as the second byte of
+// an escape sequence, and as the second byte of the escape sequence that ends the value - in every role of A, with B
+// absent / present / inlining A (so the swept value is also an inlined prefix)
+func (d *domain) sweep(ctx *seq.Ctx, sel *selector) bool {
+	lengths := []int{1, 2, 3, 17, 255}
+	type rolePair struct {
+		lay    layout
+		ra, rb role
+	}
+	var rps []rolePair
+	for ra := role(0); ra < numRoles; ra++ {
+		for rb := role(0); rb < numRoles; rb++ {
+			if d.thorough || rb == rPlain || rb == rInlineUnescape {
+				rps = append(rps, rolePair{layout{nfields: 3}, ra, rb})
+			}
+			if d.thorough && (rb == rPlain || rb == rInlineUnescape) {
+				rps = append(rps, rolePair{layout{nfields: 16}, ra, rb})
+			}
+		}
+	}
+	if d.thorough {
+		lengths = []int{1, 2, 3, 15, 16, 17, 31, 32, 255, 256, 65535, 65536, 65537}
+	}
+	setups := make([]*setup, len(rps)) // all alive during the group: the values are the outer loop
+	bvals := []*value{d.empty, mkValue("3:cls", "cls")}
+	ctx.Group("sweep")
+	for _, sub := range d.subjects {
+		for _, pat := range sweepPatterns {
+			if pat.thorough && !d.thorough {
+				continue
+			}
+			for _, n := range lengths {
+				if n < 1+len(sub.b) && pat.name != "raw" {
+					continue // no room for an escape sequence: the value would not depend on the subject
+				}
+				if ctx.Stop() {
+					return false
+				}
+				if !sel.take() {
+					continue
+				}
+				var a *value
+				for si, rp := range rps {
+					for _, b := range bvals {
+						for ui := 0; ui < 2; ui++ {
 							if !ctx.Mine() {
 								ctx.Skip()
 								continue
 							}
-							a, b := &small[ai], &small[bi]
-							id := fmt.Sprintf("overlap/%s/A=%s:%d:%s/B=%s:%d:%s/u%d", lay, roleNames[ra], lengthClasses[a.li], classes[a.ci].name,
-								roleNames[rb], lengthClasses[b.li], classes[b.ci].name, ui)
-							nontrivial := a.s != "" || b.s != ""
-							unescaped := ui == 1
-							ctx.Case(id, nontrivial, id, func() (string, string) { return st.check(ctx, a, b, unescaped, tss[3]) })
+							if a == nil {
+								a = mkValue(fmt.Sprintf("%d:%s-%s", n, pat.name, sub.name), pat.gen(sub.b, n))
+								if len(a.s) != n {
+									panic("harness bug: sweep value of the wrong length")
+								}
+							}
+							if setups[si] == nil {
+								setups[si] = newSetup(rp.lay, rp.ra, rp.rb)
+							}
+							st := setups[si]
+							id := fmt.Sprintf("sweep/%s/A=%s:%s/B=%s:%s/u%d", rp.lay, bname(rp.ra), a.name, bname(rp.rb), b.name, ui)
+							spec := &recSpec{a: a, b: b, unescaped: ui == 1, ts: d.tss[3]}
+							ctx.Case(id, rp.ra != rHidden, id, func() (string, string) { return st.check(ctx, spec, 0) })
 						}
 					}
 				}
 			}
 		}
 	}
+	return true
+}
 
-	// ---- main product
-	for _, cl := range layouts {
-		lay := cl.layout
+// ---- rewriter chains: every chain of 0..3 (thorough: the first candidate set up to 4) "inline" steps over a set of
+// candidate fields + the terminating copy / unescape, on the first field and on a filler field with a 16-byte key; the
+// candidates are B (any value, empty included), a hidden non-empty field, a plain field with a 16-byte key and the
+// rewritten field itself (thorough: + empty and non-empty environment field, empty hidden field, 256-byte key with a
+// multi-byte value, a plain field holding escape sequences). Plus setups with five rewritten fields at once.
+func (d *domain) chains(ctx *seq.Ctx, sel *selector) bool {
+	lay := layout{nfields: 16}
+	probe := newSetup(lay, rPlain, rPlain)
+	idx := func(prefix string) int {
+		for i, n := range probe.names {
+			if n == prefix || strings.HasPrefix(n, prefix+"_") {
+				return i
+			}
+		}
+		panic("harness bug: no filler " + prefix)
+	}
+	type cand struct {
+		name string
+		idx  int // -1: the rewritten field itself
+	}
+	cands := []cand{{"B", 1}, {"task", idx("task")}, {"k16", idx("k16")}, {"self", -1}}
+	maxLen := 3
+	if d.thorough {
+		cands = append(cands, cand{"vhost", idx("vhost")}, cand{"host", idx("host")}, cand{"pnum", idx("pnum")}, cand{"k256", idx("k256")}, cand{"raw", idx("raw")})
+	}
+	type owner struct {
+		name string
+		idx  int
+	}
+	owners := []owner{{"A", 0}, {"k16", idx("k16")}}
+	if d.thorough {
+		owners = append(owners, owner{"B", 1}, owner{"k256", idx("k256")}, owner{"raw", idx("raw")})
+	}
+	ctx.Group("chains")
+	run := func(own owner, rb role, term role, seqn []int, cs []cand) {
+		inl := make([]int, len(seqn))
+		names := make([]string, len(seqn))
+		for k, c := range seqn {
+			inl[k] = cs[c].idx
+			if inl[k] < 0 {
+				inl[k] = own.idx
+			}
+			names[k] = cs[c].name
+		}
+		ch := &chainSpec{inl, term}
+		st := newSetupWith(lay, rPlain, rb, func(specs []fieldSpec, _, _ int) {
+			f := &specs[own.idx]
+			f.base, f.chain = rPlain, ch
+			f.label = own.name + ":" + chainLabel(ch)
+		})
+		prefix := fmt.Sprintf("chains/%s/%s=[%s]+%s", lay, own.name, strings.Join(names, ","), chainLabel(ch)[3:])
+		d.pairs(ctx, st, prefix, d.small, d.small, d.tss[3], 0, rPlain, rb)
+	}
+	// walk enumerates the sequences of minLen..maxLen candidates that extend seqn
+	var walk func(own owner, rb, term role, cs []cand, minLen, maxLen int, seqn []int) bool
+	walk = func(own owner, rb, term role, cs []cand, minLen, maxLen int, seqn []int) bool {
+		if ctx.Stop() {
+			return false
+		}
+		if len(seqn) >= minLen && sel.take() {
+			run(own, rb, term, seqn, cs)
+		}
+		if len(seqn) == maxLen {
+			return true
+		}
+		for c := range cs {
+			if !walk(own, rb, term, cs, minLen, maxLen, append(seqn[:len(seqn):len(seqn)], c)) {
+				return false
+			}
+		}
+		return true
+	}
+	for _, own := range owners {
+		for _, rb := range []role{rPlain, rHidden} {
+			if rb == rHidden && (own.idx == 1 || (own.idx != 0 && !d.thorough)) {
+				continue
+			}
+			for _, term := range []role{rCopy, rUnescape} {
+				if !walk(own, rb, term, cands, 0, maxLen, nil) {
+					return false
+				}
+				if d.thorough && own.idx == 0 { // chains of exactly 4 steps over the first four candidates (shorter ones are enumerated above)
+					if !walk(own, rb, term, cands[:4], 4, 4, nil) {
+						return false
+					}
+				}
+			}
+		}
+	}
+	// five rewritten fields at once, in all assignments of copy / unescape to the terminators of three of them
+	for mask := 0; mask < 8; mask++ {
+		if ctx.Stop() {
+			return false
+		}
+		if !sel.take() {
+			continue
+		}
+		term := func(bit int) role {
+			if mask&(1<<bit) != 0 {
+				return rUnescape
+			}
+			return rCopy
+		}
+		k16, k256, raw := idx("k16"), idx("k256"), idx("raw")
+		st := newSetupWith(lay, rInlineUnescape, rUnescape, func(specs []fieldSpec, _, _ int) {
+			set := func(i int, name string, ch *chainSpec) {
+				specs[i].chain, specs[i].label = ch, name+":"+chainLabel(ch)
+			}
+			set(k16, "k16", &chainSpec{[]int{0, 1}, term(0)})
+			set(k256, "k256", &chainSpec{[]int{raw}, term(1)})
+			set(raw, "raw", &chainSpec{nil, term(2)})
+		})
+		d.pairs(ctx, st, fmt.Sprintf("chains/%s/five-rewritten-fields/m%d", lay, mask), d.small, d.small, d.tss[3], 0, rInlineUnescape, rUnescape)
+	}
+	return true
+}
+
+// ---- histories: every ordered pair (thorough: also every triple of a reduced set) of records through one serializer
+// with nothing between them. The records differ in timestamp (same second / millisecond / microsecond, next second with
+// the same nanoseconds), in the values of A and B (empty, short, escaped, long), in the value of an environment field and
+// in the Unescaped flag; each is compared with the model.
+func (d *domain) history(ctx *seq.Ctx, sel *selector) bool {
+	avals := []*value{d.empty, mkValue("1:a", "a"), mkValue("8:esc", `x\ny\\z\`), mkValue("17:ascii", ascii(17)), mkValue("300:ascii", ascii(300))}
+	bvals := []*value{d.empty, mkValue("2:C1", "C1")}
+	hvals := []*value{mkValue("1:h", "h"), d.empty}
+	tss := historyStamps[:4]
+	if d.thorough {
+		tss = historyStamps
+	}
+	type rec struct {
+		name string
+		spec *recSpec
+	}
+	var recs, recs3 []rec
+	for ti, ts := range tss {
+		for ai, a := range avals {
+			for bi, b := range bvals {
+				for hi, h := range hvals {
+					for ui := 0; ui < 2; ui++ {
+						r := rec{fmt.Sprintf("t%da%db%dh%du%d", ti, ai, bi, hi, ui), &recSpec{a: a, b: b, host: h, unescaped: ui == 1, ts: ts}}
+						recs = append(recs, r)
+						if ti < 3 && ai%2 == 0 && bi == 1 && hi == 0 {
+							recs3 = append(recs3, r)
+						}
+					}
+				}
+			}
+		}
+	}
+	for _, lay := range []layout{{nfields: 3}, {nfields: 16}} {
+		for ra := role(0); ra < numRoles; ra++ {
+			for rb := role(0); rb < numRoles; rb++ {
+				if lay.nfields == 3 && !d.thorough && (rb == rCopy || rb == rUnescape || rb == rInlineCopy) {
+					continue
+				}
+				if lay.nfields == 16 && !((ra == rPlain || ra == rInlineUnescape) && (rb == rPlain || rb == rHidden)) {
+					continue
+				}
+				var st *setup
+				get := func() *setup {
+					if st == nil {
+						st = newSetup(lay, ra, rb)
+					}
+					return st
+				}
+				ctx.Group("history/" + lay.String())
+				for _, x := range recs {
+					if ctx.Stop() {
+						return false
+					}
+					if !sel.take() {
+						continue
+					}
+					for _, y := range recs {
+						if !ctx.Mine() {
+							ctx.Skip()
+							continue
+						}
+						id := fmt.Sprintf("history/%s/A=%s/B=%s/%s>%s", lay, bname(ra), bname(rb), x.name, y.name)
+						seqn := []*recSpec{x.spec, y.spec}
+						ctx.Case(id, true, id, func() (string, string) { return get().checkHistory(ctx, seqn) })
+					}
+				}
+				if !d.thorough {
+					continue
+				}
+				ctx.Group("history3/" + lay.String())
+				for _, x := range recs3 {
+					for _, y := range recs3 {
+						if ctx.Stop() {
+							return false
+						}
+						if !sel.take() {
+							continue
+						}
+						for _, z := range recs3 {
+							if !ctx.Mine() {
+								ctx.Skip()
+								continue
+							}
+							id := fmt.Sprintf("history3/%s/A=%s/B=%s/%s>%s>%s", lay, bname(ra), bname(rb), x.name, y.name, z.name)
+							seqn := []*recSpec{x.spec, y.spec, z.spec}
+							ctx.Case(id, true, id, func() (string, string) { return get().checkHistory(ctx, seqn) })
+						}
+					}
+				}
+			}
+		}
+	}
+	return true
+}
+
+// ---- what happens between the call and the reading of the stream: the record buffer recycled, another serializer of the
+// same / of another configuration at work - each alone - and all of these together with a new serializer created
+func (d *domain) alias(ctx *seq.Ctx, sel *selector) bool {
+	modes := []int{mRecycled, mOtherSame, mOtherDiff, mRecycled | mOtherSame | mOtherDiff | mNewSer}
+	for _, lay := range []layout{{nfields: 3}, {nfields: 16}} {
 		for ra := role(0); ra < numRoles; ra++ {
 			for rb := role(0); rb < numRoles; rb++ {
 				if ctx.Stop() {
-					return
+					return false
+				}
+				if !sel.take() {
+					continue
+				}
+				st := newSetup(lay, ra, rb)
+				ctx.Group("alias/" + lay.String())
+				for _, m := range modes {
+					d.pairs(ctx, st, fmt.Sprintf("alias/%s/%s", modeName(m), lay), d.small, d.small, d.tss[3], m, ra, rb)
+				}
+			}
+		}
+	}
+	return true
+}
+
+// ---- wide schemas: 32..34 and 64..66 named fields (thorough: + 31, 63, 127..129, 255..258, 300), the distinguished fields LAST, so that
+// hidden / environment / rewritten / plain fields sit at indices beyond 31 and 63 (and 255) and the record map has more
+// than 32 / 64 entries; the fillers repeat the 14 fixed ones (hidden non-empty "task" at indices 2, 16, 30, 44, 58, ...)
+func (d *domain) wide(ctx *seq.Ctx, sel *selector) bool {
+	sizes := []int{32, 33, 34, 64, 65, 66} // A, B at indices 30,31 / 31,32 / 32,33 and 62,63 / 63,64 / 64,65
+	if d.thorough {
+		sizes = append(sizes, 31, 63, 127, 128, 129, 255, 256, 257, 258, 300)
+	}
+	for _, nf := range sizes {
+		lay := layout{nfields: nf, tail: true}
+		for ra := role(0); ra < numRoles; ra++ {
+			for rb := role(0); rb < numRoles; rb++ {
+				if ctx.Stop() {
+					return false
+				}
+				if !sel.take() {
+					continue
+				}
+				st := newSetup(lay, ra, rb)
+				ctx.Group("wide/" + lay.String())
+				d.pairs(ctx, st, "wide/"+lay.String(), d.small, d.small, d.tss[3], 0, ra, rb)
+			}
+		}
+	}
+	return true
+}
+
+// ---- rewritten lengths that reach the str16 / str32 boundary only as a sum: len("class=") + len(B) + len(" ") + len(A)
+// = 65534 .. 65537 (A rewritten by [inline B, copy | unescape]), for several splits and contents that shrink or do not
+func (d *domain) inlineSum(ctx *seq.Ctx, sel *selector) bool {
+	contents := []contentClass{
+		{"ascii", ascii},
+		{"dense-esc-6e", func(n int) string { return repeatTo(`\nz`, n) }},
+		{"one-esc-end", func(n int) string {
+			if n < 2 {
+				return repeatTo(`\`, n)
+			}
+			return ascii(n-2) + `\t`
+		}},
+	}
+	for _, lay := range []layout{{nfields: 3}, {nfields: 16}} {
+		for _, ra := range []role{rInlineCopy, rInlineUnescape} {
+			for _, rb := range []role{rPlain, rHidden, rEnv} {
+				if ctx.Stop() {
+					return false
+				}
+				if !sel.take() {
+					continue
+				}
+				st := newSetup(lay, ra, rb)
+				ctx.Group("inline-sum")
+				for _, sum := range []int{65534, 65535, 65536, 65537} {
+					for _, nb := range []int{1, 16, 255, 32768, 65000} {
+						na := sum - nb - len(nameB) - 2
+						for _, ca := range contents {
+							for _, cb := range contents[:2] {
+								for ui := 0; ui < 2; ui++ {
+									if !ctx.Mine() {
+										ctx.Skip()
+										continue
+									}
+									a := mkValue(fmt.Sprintf("%d:%s", na, ca.name), ca.gen(na))
+									b := mkValue(fmt.Sprintf("%d:%s", nb, cb.name), cb.gen(nb))
+									id := fmt.Sprintf("inline-sum/%s/S=%d/A=%s:%s/B=%s:%s/u%d", lay, sum, bname(ra), a.name, bname(rb), b.name, ui)
+									spec := &recSpec{a: a, b: b, unescaped: ui == 1, ts: d.tss[3]}
+									ctx.Case(id, true, id, func() (string, string) { return st.check(ctx, spec, 0) })
+								}
+							}
+						}
+					}
+				}
+			}
+		}
+	}
+	return true
+}
+
+// ---- records AT the documented record limit (defs.InputLogMaxRecordBytes, "the maximum length of a log record from
+// input"): the sum of the field values is exactly the limit (thorough: also limit-1 and half the limit), split between A
+// and B in seven ways, in every role pair. A record within the limit whose event needs more than twice the limit (an
+// inlined field that is also output itself, both nearly as long as the limit) is reported under its own key.
+func (d *domain) atLimit(ctx *seq.Ctx, sel *selector) bool {
+	limit := defs.InputLogMaxRecordBytes
+	totals := []int{limit}
+	if d.thorough {
+		totals = append(totals, limit-1, limit/2)
+	}
+	contents := []contentClass{
+		{"ascii", ascii},
+		{"dense-esc-6e", func(n int) string { return repeatTo(`\nz`, n) }},
+		{"only-backslashes", func(n int) string { return repeatTo(`\`, n) }},
+	}
+	lay := layout{nfields: 3}
+	val := func(n int, c contentClass) *value {
+		name := fmt.Sprintf("%d:%s", n, c.name)
+		v := d.limit[name]
+		if v == nil {
+			v = mkValue(name, c.gen(n))
+			d.limit[name] = v
+		}
+		return v
+	}
+	defer func() { d.limit = map[string]*value{} }() // 1 MiB values: not kept beyond the group
+	for ra := role(0); ra < numRoles; ra++ {
+		for rb := role(0); rb < numRoles; rb++ {
+			if ctx.Stop() {
+				return false
+			}
+			if !sel.take() {
+				continue
+			}
+			st := newSetup(lay, ra, rb)
+			st.freshSer = true
+			ctx.Group("limit")
+			for _, total := range totals {
+				rem := total - len(st.fill[st.hostIdx])
+				splits := []struct {
+					name string
+					na   int
+				}{{"all-0", rem}, {"0-all", 0}, {"1-1", rem / 2}, {"1-2", rem / 3}, {"2-1", rem - rem/3}, {"1-rest", 1}, {"rest-1", rem - 1}}
+				for _, sp := range splits {
+					for _, c := range contents {
+						for ui := 0; ui < 2; ui++ {
+							if !ctx.Mine() {
+								ctx.Skip()
+								continue
+							}
+							a, b := val(sp.na, c), val(rem-sp.na, c)
+							id := fmt.Sprintf("limit/%d/%s/A=%s:%s/B=%s:%s/u%d", total, sp.name, bname(ra), a.name, bname(rb), b.name, ui)
+							spec := &recSpec{a: a, b: b, unescaped: ui == 1, ts: d.tss[3]}
+							ctx.Case(id, true, id, func() (string, string) { return st.checkAtLimit(ctx, spec) })
+						}
+					}
+				}
+			}
+			st.ser = nil
+		}
+	}
+	return true
+}
+
+// checkAtLimit is check() for records at the record limit. The model gives the size of the event without any header
+// (keys and values, inlined prefixes raw); if that alone exceeds twice the record limit, a failure is reported as the
+// capacity finding.
+func (st *setup) checkAtLimit(ctx *seq.Ctx, spec *recSpec) (key, msg string) {
+	fields, un, raw := st.materialize(spec)
+	ex := st.expected(fields, un, spec.unescaped, spec.ts)
+	least := len("environment")
+	for k, acc := range ex.top {
+		least += len(k) + acc[0].size() // inlined prefixes as they are (where an unescaped prefix is accepted too, it is shorter)
+	}
+	for k, v := range ex.env {
+		least += len(k) + len(v)
+	}
+	if least <= 2*defs.InputLogMaxRecordBytes {
+		return st.check(ctx, spec, 0)
+	}
+	ctx.Groups["cover:event-larger-than-twice-the-record-limit"]++
+	site, detail := seq.Catch(func() { key, msg = st.check(ctx, spec, 0) })
+	if site != "" {
+		key, msg = "panic:"+site, detail
+	}
+	if key != "" {
+		return "capacity:event-larger-than-twice-the-record-limit", fmt.Sprintf("a record of %d bytes (limit %d) whose event needs at least %d bytes: %s: %s", raw, defs.InputLogMaxRecordBytes, least, key, msg)
+	}
+	return "", ""
+}
+
+// ---- the big product: layouts x roles x flags x timestamps x value(A) x value(B)
+func (d *domain) product(ctx *seq.Ctx, sel *selector) bool {
+	// layouts in three classes: class 0: 3+2, 16+2 (reserved slots), 14/15/16 dense   class 1: 14, 15   class 2: 3, 16
+	type classedLayout struct {
+		layout
+		class int
+	}
+	layouts := []classedLayout{{layout{nfields: 3, reserved: 2}, 0}, {layout{nfields: 16, reserved: 2}, 0},
+		{layout{nfields: 14, dense: true}, 0}, {layout{nfields: 15, dense: true}, 0}, {layout{nfields: 16, dense: true}, 0},
+		{layout{nfields: 14}, 1}, {layout{nfields: 15}, 1}, {layout{nfields: 3}, 2}, {layout{nfields: 16}, 2}}
+	// value sets: "listed" = the 11 lengths x 14 content classes named in the plan; "all" adds the thorough-only classes;
+	// "small" = lengths {0,1,16,65536} x {ascii, mixed}.
+	// pairOK decides which (A value, B value) pairs are crossed with a timestamp on a layout. With V = the two value
+	// timestamps, O = the other timestamps:
+	//   level 0: small x small at every timestamp
+	//   level 1: V: listed x listed;                 O: small x small
+	//   level 2: V: all x listed U listed x all;     O: listed x listed   (contains the full planned product)
+	// quick: layout classes 0,1 -> level 0, class 2 -> level 1.  thorough: class 0 -> level 1, classes 1,2 -> level 2.
+	thorough := d.thorough
+	levelOf := func(class int) int {
+		switch {
+		case thorough && class >= 1:
+			return 2
+		case thorough || class == 2:
+			return 1
+		}
+		return 0
+	}
+	values := d.values
+	for _, cl := range layouts {
+		lay := cl.layout
+		level := levelOf(cl.class)
+		for ra := role(0); ra < numRoles; ra++ {
+			for rb := role(0); rb < numRoles; rb++ {
+				if ctx.Stop() {
+					return false
+				}
+				if !sel.take() { // the unit is the setup (its serializer owns 2 MiB): each pass takes every 8th role pair of every layout
+					continue
 				}
 				st := newSetup(lay, ra, rb)
 				ctx.Group(fmt.Sprintf("%s/A=%s", lay, roleNames[ra]))
 				for ui := 0; ui < 2; ui++ {
-					for ti, ts := range tss {
-						for ai := range values {
-							if ctx.Stop() {
-								return
+					for ti, ts := range d.tss {
+						v := d.vstamp[ti]
+						for _, a := range values {
+							// rowOK: does the row A = a have any case at this timestamp?
+							var rowOK bool
+							switch {
+							case level == 2 && v:
+								rowOK = true
+							case level == 2, level == 1 && v:
+								rowOK = a.listed
+							default:
+								rowOK = a.small
 							}
-							for bi := range values {
-								if !pairOK(cl.class, ts, ai, bi) {
+							if !rowOK {
+								continue
+							}
+							if ctx.Stop() {
+								return false
+							}
+							for _, b := range values {
+								var ok bool
+								switch {
+								case level == 2 && v:
+									ok = a.listed || b.listed
+								case level == 2, level == 1 && v:
+									ok = b.listed
+								default:
+									ok = b.small
+								}
+								if !ok {
 									continue
 								}
 								if !ctx.Mine() {
 									ctx.Skip()
 									continue
 								}
-								a, b := &values[ai], &values[bi]
-								id := fmt.Sprintf("%s/A=%s:%d:%s/B=%s:%d:%s/u%d/t%d", lay, roleNames[ra], lengthClasses[a.li], classes[a.ci].name,
-									roleNames[rb], lengthClasses[b.li], classes[b.ci].name, ui, ti)
+								id := fmt.Sprintf("%s/A=%s:%s/B=%s:%s/u%d/t%d", lay, roleNames[ra], a.name, roleNames[rb], b.name, ui, ti)
 								nontrivial := (a.s != "" && ra != rHidden) || (b.s != "" && rb != rHidden)
-								unescaped, ts := ui == 1, ts
-								ctx.Case(id, nontrivial, id, func() (string, string) { return st.check(ctx, a, b, unescaped, ts) })
+								spec := &recSpec{a: a, b: b, unescaped: ui == 1, ts: ts}
+								ctx.Case(id, nontrivial, id, func() (string, string) { return st.check(ctx, spec, 0) })
 							}
 						}
 					}
@@ -1040,13 +1967,13 @@ func enumerate(ctx *seq.Ctx) {
 			}
 		}
 	}
+	return true
 }
 
 func main() {
 	debug.SetGCPercent(400)
 	logger.SetLogLevel(logger.ErrorLevel)
-	// defs limits stay at their production defaults (record limit 1 MiB + 256, serializer buffer twice that); the largest
-	// enumerated record is 2 x 65537 bytes + fillers, far inside the limit (overflow is property C07's concern).
+	// defs limits stay at their production defaults (record limit 1 MiB + 256).
 	seq.Main(&seq.Config{
 		Property: "C10",
 		Level:    "exploration",
@@ -1058,19 +1985,29 @@ func main() {
 			"(thorough adds 8 more non-escape second bytes and a single escape at start/middle/end). Quick crosses listed x listed values with timestamps {ns 999999999, 2^31} on layouts 3 and 16 and " +
 			"small x small values (lengths 0,1,16,65536 x ASCII, mixed) with every other timestamp and layout; thorough crosses (all x listed U listed x all) values with those two timestamps and listed x listed with every other timestamp on layouts 3, 16, 14, 15 " +
 			"(a superset of the full planned product) and gives the remaining layouts what quick gives layouts 3 and 16. 16-field layouts carry 14 fixed filler fields (empty and non-empty environment/hidden/plain, " +
-			"keys of 15/16/31/32/255/256 bytes, values of 15/16/31/32/255/256 bytes, raw escapes in a plain field); plus 14-19 environment fields for the nested map header. " +
+			"keys of 15/16/31/32/255/256 bytes, values of 15/16/31/32/255/256 bytes, raw escapes in a plain field); plus 14-19 environment fields for the nested map header; plus fields with two roles (environment or hidden + chain, environment + hidden). " +
+			"Further groups, each on small x small values unless said otherwise: sweep = all 256 byte values + 5 multi-byte characters x {ordinary content, second byte of dense escapes, second byte of the escape that ends the value} x lengths {1,2,3,17,255} (thorough: 13 lengths up to 65537, 2 more patterns) as value of A in every role with B absent/present/inlining A; " +
+			"chains = every chain of 0..3 inline steps over 4 candidate fields (B, hidden, 16-byte key, the field itself; thorough 9 candidates, and 4 steps over 4) + copy/unescape, on field A (B plain/hidden) and on a filler with a 16-byte key (thorough: 5 owners), and five rewritten fields at once; " +
+			"history = every ordered pair of 160 records (4 timestamps sharing second/millisecond/microsecond x 5 values of A x 2 of B x 2 of an environment field x Unescaped; thorough 200 records, and every triple of 18) through one serializer with nothing in between, records laid out in one recycled buffer, 28 role pairs on layout 3 (thorough 49), 4 on layout 16; " +
+			"alias = between the call and the reading of the stream: the record's buffer overwritten / another serializer of the same / of another configuration serializes / all of these and a new serializer is created and serializes, 49 role pairs x layouts 3, 16; " +
+			"wide = schemas of 32,33,34,64,65,66 named fields (thorough + 31, 63, 127..129, 255..258, 300) with A, B last, 49 role pairs; inline-sum = prefix + value lengths summing to 65534..65537; " +
+			"limit = records of exactly defs.InputLogMaxRecordBytes (thorough + limit-1, limit/2) split between A and B in 7 ways x 3 contents x 49 role pairs. " +
 			"Each case: serializer buffer poisoned with 0xC1, fresh record; output decoded token by token with vmihailenco/msgpack and again as fluentlib forwardprotocol.EventEntry; " +
-			"non-trivial = at least one of A, B is non-empty and not hidden",
+			"non-trivial = at least one of A, B is non-empty and not hidden. The enumeration runs in 8 passes over all groups (unit n - a configuration, or a row of a group with few configurations - is evaluated in pass n mod 8), so a deadline thins every group",
 		Assumptions: []string{
-			"defs limits at production defaults; every generated record (<= 2 x 65537 bytes + ~1.5 KB of fillers) is within the record limit, buffer overflow is C07",
-			"the serializer object is long-lived (one per configuration, as in the agent); before each case its buffer is overwritten with 0xC1 bytes (never valid MessagePack) past the largest possible output of the case, so the pre-state is a function of the case alone",
+			"defs limits at production defaults; every generated record is within the record limit (sum of the field values <= defs.InputLogMaxRecordBytes); oversized input is C07",
+			"the serializer object is long-lived (one per configuration, as in the agent); before each case its buffer is overwritten with 0xC1 bytes (never valid MessagePack) past the largest possible output of the case, so the pre-state is a function of the case alone; in a history only before the first record; in the limit group every case has a new serializer instead (no legal record could overwrite all that the case writes)",
 			"field values may be encoded with any str/bin header width (MessagePack does not require the shortest form); map entry order is not compared",
-			"documentation is silent on whether an 'unescape' step after 'inline' also unescapes the inlined prefix: both results are accepted; the inlined prefix is otherwise the other field's raw value",
+			"documentation is silent on whether an 'unescape' step after 'inline' also unescapes the inlined prefix: both results are accepted (all prefixes raw or all unescaped); the inlined prefix is otherwise the other field's raw value",
+			"documentation is silent on the order of the prefixes of several 'inline' steps: configuration order and its reverse are accepted",
+			"documentation is silent on a field listed as environment AND hidden field: it must not be at the top level and may be nested (raw value) or absent",
 			"a rewritten field whose own value is empty is not emitted even when the inlined field is non-empty (statement: exactly the non-empty fields)",
-			"a field has exactly one role; timestamps are within the EventTime range (uint32 seconds); each SerializeRecord call gets a fresh record (a second serialization of the same record is C12)",
+			"timestamps are within the EventTime range (uint32 seconds); each SerializeRecord call gets a fresh record (a second serialization of the same record is C12)",
+			"the stream is read before the next call of the SAME serializer (base.LogSerializer: 'only usable before the next call'); calls of other serializers and the recycling of the record's buffer (base.LogRecord: values 'only valid until record is released') may come first",
+			"schemas have at most 300 named fields (MessagePack map16 allows 65535 entries; schemas of that size are not enumerated); duplicate names within environmentFields are a configuration matter (C16)",
 		},
 		Enumerate:        enumerate,
-		QuickDeadline:    300 * time.Second,
+		QuickDeadline:    15 * time.Minute,
 		ThoroughDeadline: 45 * time.Minute,
 	})
 }
